@@ -303,3 +303,8 @@ func verifC10Wide2x70g() { verifC10Wide(2, 70, true) }
 func verifC10Wide3x70g() { verifC10Wide(3, 70, true) }
 func verifC10Wide3x70()  { verifC10Wide(3, 70, false) }
 func verifC10Wide3x130() { verifC10Wide(3, 130, true) }
+
+// AND levels whose size is an exact multiple of the 64-bit word
+func verifC10Wide2x64g()  { verifC10Wide(2, 64, true) }
+func verifC10Wide2x128g() { verifC10Wide(2, 128, true) }
+func verifC10Wide3x64g()  { verifC10Wide(3, 64, true) }
